@@ -435,13 +435,15 @@ def queries_coq(qs):
             t = "QRSimCompose %s %s" % (cq(c.num()), ops_coq(c.ops()))
         elif k == "rrevsimc":
             t = "QRRevSimCompose %s %s" % (cq(c.num()), ops_coq(c.ops()))
+        elif k == "walk":
+            t = "QPairsWalk %s" % o_coq(c.onum())
         else:
             t = "QRRevSim %s %s" % (cq(c.num()), ops_coq(c.ops()))
         out.append("(%s, %s)" % (t, "None" if res is None else "Some " + cq(res)))
     return "[" + "; ".join(out) + "]"
 
 
-MONITORS = {"C06", "C15", "C10", "C01", "C02", "C03", "C04", "C05", "C07", "C09", "C11", "C12", "C13", "C14", "C16", "C17", "C20"}
+MONITORS = {"C06", "C15", "C19", "C10", "C01", "C02", "C03", "C04", "C05", "C07", "C09", "C11", "C12", "C13", "C14", "C16", "C17", "C20"}
 
 
 def replay_hist(j):
@@ -650,7 +652,8 @@ def gen_swap(h, rng, p, u, limits=True):
     if offer[0] == "n":
         funds = [(offer[1], amount)]
         if bad:
-            funds = rng.choice([[], [(offer[1], amount + 1)], [(offer[1], max(0, amount - 1))], [(offer[1], amount), ((offer[1] + 1) % max(1, h.nd), 5)]])
+            funds = rng.choice([[], [(offer[1], amount + 1)], [(offer[1], max(0, amount - 1))], [(offer[1], amount), ((offer[1] + 1) % max(1, h.nd), 5)],
+                                [((offer[1] + 1) % max(1, h.nd), amount)], [((offer[1] + 1) % max(1, h.nd), amount)]])
         elif h.nd > 1 and rng.random() < 0.2:
             # the right coin plus a sizeable coin of another denom (the pair's other asset when it is native): a donation
             # that reaches the pair before the swap is priced
@@ -818,6 +821,8 @@ def general_histories(rng, tier, n_hist=None, steps=None):
             base = max(1000, h.ubal // rng.choice([10, 10 ** 4, 10 ** 8]))
             h.do(("bank", USER0 + 2, q, [(1, base)]))
             h.do(("transfer", 2, USER0 + 2, q, max(1, base // rng.choice([1, 3, 1000]))))
+            # a first provision that DECLARES a native amount the pair already holds idle, attaching nothing of it
+            h.do(("provide", q, USER0, [], ("n", 1), max(1, base // 4), ("t", 2), max(1, base // 8), None, None))
             h.query("sim %d %s %d" % (q, a_line(("n", 1)), max(1, base // 100)))
             h.query("revsim %d %s %d" % (q, a_line(("n", 1)), max(1, base // 1000)))
             h.query("rsim %d %s" % (max(1, base // 100), ops_line([(("t", 2), ("n", 1))])))
@@ -826,6 +831,27 @@ def general_histories(rng, tier, n_hist=None, steps=None):
             h.do(("swap", q, USER0 + 1, [(1, amt)], ("n", 1), amt, None, None, None), quote)
         else:
             setup_pairs(h, rng, kinds)
+        # directed: the owner asks for a pair of ONE cw20 written in two spellings (never creatable); if it exists all the same,
+        # it gets liquidity and a withdrawal like any other pair
+        if len(h.pairs()) < h.maxp:
+            before = set(h.pairs())
+            h.do(("fac_create_pair", h.owner(), ("t", 2), ("T", 2), [USER0, USER0 + 1], 0, 0, None, None))
+            for q_ in [x for x in h.pairs() if x not in before]:
+                for u_ in h.users():
+                    h.do(("incr_allow", 2, u_, q_, h.ubal))
+                n_ = max(1000, h.ubal // 10 ** 6)
+                h.do(("provide", q_, USER0, [], ("t", 2), n_, ("t", 2), n_, None, None))
+                h.do(("provide", q_, USER0 + 1, [], ("t", 2), n_ // 2, ("t", 2), n_ // 2, None, None))
+                lq = h.pair_lp(q_)
+                for u_ in (USER0, USER0 + 1):
+                    if h.bal(lq, u_) > 1:
+                        h.do(("send", lq, u_, q_, h.bal(lq, u_) // 2, ("hwithdraw",)))
+        # directed: a holder has approved the ROUTER for a cw20; somebody else hands the router a Receive envelope naming that
+        # holder as sender, with a route that starts from that cw20
+        h.do(("incr_allow", 2, USER0 + 2, ROUTER, h.ubal))
+        for to_ in (USER0 + 1, None):
+            h.do(("router_receive", USER0 + 1, USER0 + 2, max(1, h.ubal // 10 ** 5), ("hrouter", [(("t", 2), ("n", 0))], None, to_)))
+        h.do(("router_ops", USER0 + 1, [], [(("t", 2), ("n", 0))], None, None))
         # directed: a direct swap that also carries a coin of a denom the pair does not trade (small and sizeable), quoted first
         for q_ in h.pairs()[:3]:
             for off in h.pair_assets(q_):
@@ -930,6 +956,27 @@ def extreme_histories(rng, tier):
         b2 = h.bal(lp, USER0 + 2)
         if b2 > 0:
             h.do(("send", lp, USER0 + 2, p, b2, ("hwithdraw",)))
+    cases.append(h.finish())
+    # the same value cycles through a pool again and again: every round a holder withdraws half of its LP and the payout is
+    # donated back; no single amount is large, but the payouts ADD UP to more than 2^128
+    h = Hist(2, 1, 1, 1, 2 ** 126, 1000, [18], "directed-extreme", "cumulative payouts beyond 2^128")
+    created = setup_pairs(h, rng, [(("n", 0), ("t", 2))], comm=3 * 10 ** 15, provide=False, native_decs=[18])
+    p = created[0]
+    lp = h.pair_lp(p)
+    h.do(("provide", p, USER0, [(0, 10 ** 12)], ("n", 0), 10 ** 12, ("t", 2), 10 ** 12, None, None))
+    h.do(("bank", USER0 + 1, p, [(0, 2 ** 125)]))
+    h.do(("transfer", 2, USER0 + 1, p, 2 ** 125))
+    for rnd in range(22):
+        b = h.bal(lp, USER0)
+        if b < 4:
+            break
+        b0, b1 = h.bank(USER0, 0), h.bal(2, USER0)
+        ok, _ = h.do(("send", lp, USER0, p, b // 2, ("hwithdraw",)))
+        g0, g1 = h.bank(USER0, 0) - b0, h.bal(2, USER0) - b1
+        if g0 > 0:
+            h.do(("bank", USER0, p, [(0, g0)]))
+        if g1 > 0:
+            h.do(("transfer", 2, USER0, p, g1))
     cases.append(h.finish())
     # reserves whose product passes 2^256/10^18 (only reachable by donating on top of a provisioned pool): the fixed-point
     # ratio inside compute_swap no longer fits and swaps must abort, whatever their size; one reserve exactly twice the other
@@ -1130,6 +1177,10 @@ def first_provision_matrix(rng, tier):
                 prov(wl_user, m0 - 1, good[1], rng.choice([None, other_wl]))
             if m1 > 0:
                 prov(wl_user, good[0], m1 - 1, rng.choice([None, outsider]))
+            # tiny first provisions (floor(sqrt(d0*d1)) = 1: nothing would be left for the receiver after the reserved unit)
+            if m0 <= 1 and m1 <= 1:
+                for (t0, t1) in ((1, 1), (1, 2), (2, 1), (1, 3), (3, 1)):
+                    prov(wl_user, t0, t1, rng.choice([None, outsider]))
             # the one that goes through: a whitelisted caller, receiver varies with the pair
             prov(wl_user, good[0], good[1], [None, outsider, other_wl, wl_user][(i + rep) % 4])
             # a caller who holds none of the pair's cw20 assets names a receiver who holds them and has approved the pair
@@ -1417,8 +1468,9 @@ def registry_histories(rng, tier, big=False):
         assets = [("n", d) for d in range(nd_)] + [("t", 2 + i) for i in range(nt_)]
         allp = [(a, b) for i, a in enumerate(assets) for b in assets[i + 1:]]
         rng.shuffle(allp)
-        # make sure denom 0 is in many pairs, in both positions
-        allp.sort(key=lambda ab: 0 if ("n", 0) in ab else 1)
+        # make sure denom 0 is in many pairs, in both positions; and that there are cw20 / native pairs whose native denom sorts
+        # BEFORE every contract address as a string (upper case) - printed order and raw-byte order of the two assets differ there
+        allp.sort(key=lambda ab: 0 if (("n", 2) in ab and any(x[0] == "t" for x in ab)) else 1 if ("n", 0) in ab else 2)
         # one cw20 named in two spellings of its address (the same contract to the chain, different strings to the
         # factory's "same asset" guard), and a non-normalised spelling next to a different asset: never creatable
         tk = rng.choice([2, 3, 4])
@@ -1452,14 +1504,21 @@ def registry_histories(rng, tier, big=False):
                 h.do(("fac_update_config", owner, None, rng.choice([8, 4, 12])))
             if rng.random() < 0.15 and h.pairs():
                 h.do(("fac_migrate", owner, rng.choice(h.pairs()), rng.choice([0, 1, 2])))
+        for L_ in (None, 1, 3, 30, 40):
+            h.query("walk %s" % o_line(L_))
         # a code roll-out and an explicit migration before the final registrations, whatever the random choices were
         h.do(("fac_update_config", owner, None, 8))
         if h.pairs():
             h.do(("fac_migrate", owner, h.pairs()[0], 2))
-        for d in ((0, 1, 0, 3, 4, 0, 1) if n <= 14 else tuple(range(nd_)) + (0,)):
+        for d in ((0, 1, 2, 3, 4, 5, 0, 2) if n <= 14 else tuple(range(nd_)) + (0,)):
             # decimals are any u8: also values 20 and more away from every cw20's (at most 18)
             h.do(("fac_add_native", owner, d, rng.choice([0, 9, 12, 18, 26, 38, 255])))
             h.do(("fac_add_native", USER0 + 1, d, 3))
+            if n <= 14:
+                for L_ in (None, 1, 2):
+                    h.query("walk %s" % o_line(L_))
+        for L_ in (None, 1, 7):
+            h.query("walk %s" % o_line(L_))
         cases.append(h.finish())
     # unregistered denom / denom the factory holds none of
     h = Hist(2, 3, 1, 2, 10 ** 9, 0, [6], "directed-grid", "factory holds no native balance")
@@ -1477,7 +1536,7 @@ def router_histories(rng, tier):
     """routes of 1..4 hops over a 4-asset world with all three pair kinds (C11, C13)"""
     cases = []
     for rep in range({"quick": 4, "thorough": 40}[tier]):
-        ubal = pick_scale(rng)
+        ubal = pick_scale(rng) if rep % 4 != 1 else 10 ** 24
         h = Hist(4, 2, 2, 6, ubal, 1000, [6, 18], "random", "router routes")
         assets = [("n", 0), ("n", 1), ("t", 2), ("t", 3)]
         allp = [(a, b) for i, a in enumerate(assets) for b in assets[i + 1:]]
@@ -1538,6 +1597,21 @@ def router_histories(rng, tier):
                     h.do(("router_ops", u, [(ops[0][0][1], amount)], ops, None, h.pair_lp(q_)), quote)
                 else:
                     h.do(("send", ops[0][0][1], u, ROUTER, amount, ("hrouter", ops, None, h.pair_lp(q_))), quote)
+        # directed: outputs above 10^18 base units with minimums one, two, five units above the quote (and exactly the quote)
+        if h.ubal >= 10 ** 24:
+            for dm in (1, 2, 5, 0):
+                u = rng.choice(h.users())
+                ops = [(A, B)] if dm % 2 else [(A, B), (B, C)]
+                amount = min(h.abal(A, u), 10 ** 20 + 12345)
+                if amount <= 0:
+                    continue
+                quote = h.query("rsim %d %s" % (amount, ops_line(ops)))
+                if not quote:
+                    continue
+                if A[0] == "n":
+                    h.do(("router_ops", u, [(A[1], amount)], ops, quote[0] + dm, rng.choice([None, USER0 + 1])), quote)
+                else:
+                    h.do(("send", A[1], u, ROUTER, amount, ("hrouter", ops, quote[0] + dm, rng.choice([None, USER0 + 1]))), quote)
         # directed: minimums in the upper half of the 128-bit range (far above anything a route can deliver)
         for m in (2 ** 128 - 1, 2 ** 127 + 2 ** 126):
             u = rng.choice(h.users())
